@@ -113,17 +113,17 @@ func init() {
 		name: "fsworld", pkgs: []string{"util/osutil"}, quick: 8000, thorough: 20000, enum: true, level: "fault_enumeration",
 		real: []string{"util/osutil/file.go (CopyFile, MoveFile: control flow, defers, error handling)", "io.Copy (32 KiB loop)"},
 		stub: []string{"the file system behind package os (simgo/shim/sos: inodes, links, symlinks, path resolution, two devices, open file descriptions, O_TRUNC at open, rename/unlink semantics) with per-call fault plans", "no concurrency in this property: the scheduler is idle"},
-		rule: "cases = (a) every scenario of {CopyFile, MoveFile} x 7 source sizes (0..1 MiB) x {regular, missing, via symlink} x 17 destination layouts (missing, shorter, longer, same length with other bytes, same path, ./ and dir/../ spellings, symlink to source, hard link of source, directory, parent missing, parent is a file, other mount missing/existing, dangling symlink, symlink to another file, symlink on the other mount to the source), fault-free; (b) for each scenario every single-fault placement: each call of its recorded trace x each errno applicable to that primitive (writes additionally x {0, half, all-but-one} bytes written before the error) - (a) and (b) are enumerated completely; (c) seeded plans of up to three faults over random scenarios. distinct = distinct hash of (scenario, call trace with faults, result); every case is non-trivial (it runs the operation)",
+		rule: "cases = (a) every scenario of {CopyFile, MoveFile} x 8 source contents (0..1 MiB, one with an all-zero middle copy block) x {regular, missing, via symlink} x 17 destination layouts (missing, shorter, longer, same length with other bytes, same path, ./ and dir/../ spellings, symlink to source, hard link of source, directory, parent missing, parent is a file, other mount missing/existing, dangling symlink, symlink to another file, symlink on the other mount to the source), fault-free; (b) for each scenario every single-fault placement: each call of its recorded trace x each errno applicable to that primitive (writes additionally x {0, half, all-but-one} bytes written before the error) - (a) and (b) are enumerated completely; (c) seeded plans of up to three faults over random scenarios. distinct = distinct hash of (scenario, call trace with faults, result); every case is non-trivial (it runs the operation)",
 		assume: []string{"the simulated file system is faithful where the property looks: every fault-free scenario is also executed by the unrewritten package on the real file system (second mount: /dev/shm) and must agree in error class and resulting contents", "errors surfacing only at Close and power loss are outside the property's fault list"},
 	}
 	worlds["fsworld"].probes = map[string][]string{"*": {"traces_validated_against_real_fs", "fs.rename:EXDEV", "fs.write:ENOSPC", "fs.read:EIO", "fs.unlink:EPERM", "fs.truncate:EIO"}}
 	propWorld["C18"] = "fsworld"
 	worlds["httpworld"].probes = map[string][]string{
 		"C05": {"panic_unwinds_through_servehttp", "route_with_more_params_added_after_store_pooled", "pool.miss_with_items", "pool.stale_pick"},
-		"C15": {"zero_length_first_write", "abort_handler_panic", "panic_before_writing", "panic_after_status", "panic_after_partial_body", "client.write_error", "pool.stale_pick"}}
+		"C15": {"panic_with_long_stack_trace", "zero_length_first_write", "abort_handler_panic", "panic_before_writing", "panic_after_status", "panic_after_partial_body", "client.write_error", "pool.stale_pick"}}
 	propWorld["C05"] = "httpworld"
 	propWorld["C15"] = "httpworld"
-	worlds["logworld"].probes = map[string][]string{"*": {"clock_moves_between_records", "line_over_pool_limit", "line_near_pool_limit", "long_key_path", "empty_derivation", "siblings_of_derived_parent", "inline_group", "below_threshold", "slow_write", "folded_compared", "pool.miss_with_items", "pool.stale_pick", "sink.short_write", "sink.write_error"}}
+	worlds["logworld"].probes = map[string][]string{"*": {"clock_moves_between_records", "line_over_pool_limit", "line_near_pool_limit", "long_key_path", "group_name_reused", "empty_derivation", "siblings_of_derived_parent", "inline_group", "below_threshold", "slow_write", "folded_compared", "pool.miss_with_items", "pool.stale_pick", "sink.short_write", "sink.write_error"}}
 	propWorld["C02"] = "logworld"
 	propWorld["C03"] = "logworld"
 	worlds["filterworld"].probes = map[string][]string{
